@@ -40,6 +40,14 @@ def gen_scenario(rng, sid, mode, kinds, verify_ok=True):
     for i in range(n):
         k = rng.choice(kinds)
         sub = rng.choice(["", "", "a", "a/b", "c"])
+        # one file in five is a copy of an earlier one in another directory (same name, same bytes): two files may then have
+        # byte-identical diffs
+        if files and rng.random() < 0.2:
+            rel0, k0 = rng.choice(files)
+            cand = [d for d in ["", "a", "a/b", "c"] if os.path.join(d, os.path.basename(rel0)) not in [r for r, _ in files]]
+            if cand:
+                files.append((os.path.join(rng.choice(cand), os.path.basename(rel0)), k0))
+                continue
         files.append((os.path.join(sub, "f%d.lua" % i), k))
     if rng.random() < 0.3: files.append(("missing%d.lua" % rng.randint(0, 9), "missing"))
     style = rng.choice(["dir", "explicit", "mixed"])
